@@ -277,7 +277,7 @@ def run(ctx) -> None:
         if i % ctx.nshards == ctx.shard:
             ctx.do(case)
     ctx.extra["exhaustive_part"] = "all condition shapes with <= 3 operators x 6 precedence orders x parenthesize x 3 operator spellings over single-atom detections"
-    n = 450 if ctx.tier == "quick" else 6000
+    n = 1500 if ctx.tier == "quick" else 12000
     ctx.hyp(cases(not_eq=False), n, salt=1)
     ctx.hyp(cases(not_eq=True), n // 3, salt=2)
     ctx.hyp(noteq_supported_cases(), n // 3, salt=3)
